@@ -332,7 +332,7 @@ def _worker_task(prefixes):
 def explore(factory, opts):
     """explore all paths of factory().run_path in parallel.  opts: workers, seed, max_paths, time_limit_s."""
     t0 = time.time()
-    workers = int(opts.get('workers', os.cpu_count() or 4))
+    workers = int(opts.get('workers') or os.environ.get('VERIF_WORKERS') or os.cpu_count() or 4)
     total = new_stats()
     agg = {'stats': total, 'violations': [], 'covers': set(), 'samples': [], 'error': None, 'panic_samples': [],
            'results': [], 'truncated': False}
